@@ -75,7 +75,141 @@ type VecMode struct {
 	Float     string    // float metric, or ""
 	Bit       string    // bit metric once thresholded, or ""
 	Threshold []float32 // per-dimension threshold for Bit
-	Opaque    bool      // quantised form the model cannot recompute (product quantiser): validity checks only
+	Opaque    bool      // quantised form the model cannot recompute (no committed file to read it from): validity checks only
+	PQ        *PQMode   // trained product quantiser: distance = sum over sub-vectors of metric(query part, centroid of the stored code)
+}
+
+// PQMode is the persisted state of a trained product quantiser, read from the
+// committed file: the centroids and, per live point, the stored code.
+type PQMode struct {
+	NumSub, NumCent, SubLen int
+	Metric                  string // metric applied per sub-vector
+	Centroids               []float32
+	Codes                   map[uuid.UUID][]byte
+	Problem                 string // structural defect of the persisted state ("" = none)
+}
+
+func (pq *PQMode) centroid(sub, c int) []float32 {
+	start := sub*pq.NumCent*pq.SubLen + c*pq.SubLen
+	return pq.Centroids[start : start+pq.SubLen]
+}
+
+func (pq *PQMode) distance(q []float32, code []byte) (float64, error) {
+	total := 0.0
+	for i := 0; i < pq.NumSub; i++ {
+		d, err := refFloatDistance(pq.Metric, q[i*pq.SubLen:(i+1)*pq.SubLen], pq.centroid(i, int(code[i])))
+		if err != nil {
+			return 0, err
+		}
+		total += d
+	}
+	return total, nil
+}
+
+// pqEffectiveMetric: what the product quantiser is documented to apply per
+// sub-vector (product.go: cosine cannot be handled part-wise and is replaced).
+func pqEffectiveMetric(metric string) string {
+	if metric == models.DistanceCosine {
+		return models.DistanceEuclidean
+	}
+	return metric
+}
+
+// uuidNodeMap reads point uuid -> node id from the points bucket of a dump.
+func uuidNodeMap(d Dump) map[uuid.UUID]uint64 {
+	out := map[uuid.UUID]uint64{}
+	for k, v := range detRange(d["points"]) {
+		if len(k) == 18 && k[0] == 'p' && k[17] == 'i' && len(v) == 8 {
+			var u uuid.UUID
+			copy(u[:], k[1:17])
+			out[u] = binary.LittleEndian.Uint64(v)
+		}
+	}
+	return out
+}
+
+// vectorModeDump is vectorMode with the whole committed file at hand, so that a
+// trained product quantiser can be recomputed too.
+func vectorModeDump(dim int, metric string, q *models.Quantizer, d Dump, bucketName string) VecMode {
+	var bucket map[string][]byte
+	if d != nil {
+		bucket = d[bucketName]
+	}
+	vm := vectorMode(dim, metric, q, bucket)
+	if !vm.Opaque || d == nil {
+		return vm
+	}
+	pp := q.Product
+	pq := &PQMode{NumSub: pp.NumSubVectors, NumCent: pp.NumCentroids, SubLen: dim / pp.NumSubVectors, Metric: pqEffectiveMetric(metric), Codes: map[uuid.UUID][]byte{}}
+	raw := bucket["_productQuantizerFlatCentroids"]
+	if len(raw) != 4*pq.NumSub*pq.NumCent*pq.SubLen {
+		pq.Problem = fmt.Sprintf("persisted centroids hold %d bytes, expected %d sub-vectors x %d centroids x %d floats", len(raw), pq.NumSub, pq.NumCent, pq.SubLen)
+		return VecMode{PQ: pq}
+	}
+	pq.Centroids = make([]float32, len(raw)/4)
+	for i := range pq.Centroids {
+		pq.Centroids[i] = math.Float32frombits(binary.LittleEndian.Uint32(raw[4*i:]))
+		if f := float64(pq.Centroids[i]); math.IsNaN(f) || math.IsInf(f, 0) {
+			pq.Problem = fmt.Sprintf("persisted centroid component %d is %g", i, f)
+		}
+	}
+	for u, nid := range detRange(uuidNodeMap(d)) {
+		code, ok := bucket[nodeKey(nid, 'q')]
+		if !ok {
+			continue
+		}
+		if len(code) != pq.NumSub {
+			pq.Problem = fmt.Sprintf("point %d: stored code has %d entries, expected %d", PIDIndex(u), len(code), pq.NumSub)
+			continue
+		}
+		for _, c := range code {
+			if int(c) >= pq.NumCent {
+				pq.Problem = fmt.Sprintf("point %d: stored code %v names centroid %d of %d", PIDIndex(u), code, c, pq.NumCent)
+			}
+		}
+		pq.Codes[u] = code
+	}
+	return VecMode{PQ: pq}
+}
+
+// CheckPQ: with a trained product quantiser every live point that carries the
+// vector must have a well-formed stored code, and the code of a point whose
+// vector was written after training (fresh) must name, per sub-vector, a
+// centroid that is nearest under the applied metric (ties and rounding tolerated).
+func (m *RefShard) CheckPQ(prop string, dim int, vm VecMode, fresh map[uuid.UUID]bool) string {
+	pq := vm.PQ
+	if pq == nil {
+		return ""
+	}
+	if pq.Problem != "" {
+		return pq.Problem
+	}
+	for id, d := range detRange(m.Docs) {
+		v, ok := docVector(d, prop, dim)
+		if !ok {
+			continue
+		}
+		code, ok := pq.Codes[id]
+		if !ok {
+			return fmt.Sprintf("point %d carries the vector but has no stored code although the quantiser is trained", PIDIndex(id))
+		}
+		if !fresh[id] {
+			continue
+		}
+		for i := 0; i < pq.NumSub; i++ {
+			sub := v[i*pq.SubLen : (i+1)*pq.SubLen]
+			best := math.Inf(1)
+			for c := 0; c < pq.NumCent; c++ {
+				dd, _ := refFloatDistance(pq.Metric, sub, pq.centroid(i, c))
+				best = math.Min(best, dd)
+			}
+			got, _ := refFloatDistance(pq.Metric, sub, pq.centroid(i, int(code[i])))
+			if got > best && !closeF(got, best) {
+				return fmt.Sprintf("point %d written after training: sub-vector %d %v is coded as centroid %d (distance %g) but the nearest centroid is at %g", PIDIndex(id), i, sub, code[i], got, best)
+			}
+		}
+	}
+	return ""
 }
 
 func constThreshold(dim int, t float32) []float32 {
@@ -148,7 +282,7 @@ func docVector(d Doc, prop string, dim int) ([]float32, bool) {
 // carries the vector field and passes the filter (nil filter = all).
 func (m *RefShard) VectorCandidates(prop string, dim int, vm VecMode, q []float32, filter *IDSet) (map[uuid.UUID]float64, error) {
 	out := map[uuid.UUID]float64{}
-	for id, d := range m.Docs {
+	for id, d := range detRange(m.Docs) {
 		if filter != nil && !filter.Must[id] {
 			continue
 		}
@@ -156,7 +290,17 @@ func (m *RefShard) VectorCandidates(prop string, dim int, vm VecMode, q []float3
 		if !ok {
 			continue
 		}
-		dist, err := vm.Distance(q, v)
+		var dist float64
+		var err error
+		if vm.PQ != nil {
+			code, ok := vm.PQ.Codes[id]
+			if !ok || vm.PQ.Problem != "" {
+				return nil, fmt.Errorf("product quantiser state unusable (CheckPQ reports it): point %d", PIDIndex(id))
+			}
+			dist, err = vm.PQ.distance(q, code)
+		} else {
+			dist, err = vm.Distance(q, v)
+		}
 		if err != nil {
 			return nil, err
 		}
@@ -224,7 +368,7 @@ func CheckExactTopK(want map[uuid.UUID]float64, got []Item, limit int) string {
 		return ""
 	}
 	ds := make([]float64, 0, len(want))
-	for _, d := range want {
+	for _, d := range detRange(want) {
 		ds = append(ds, d)
 	}
 	sort.Float64s(ds)
@@ -236,7 +380,7 @@ func CheckExactTopK(want map[uuid.UUID]float64, got []Item, limit int) string {
 			return fmt.Sprintf("id %d (distance %g) returned although %d candidates are closer than it (k-th distance %g)", it.ID, ref, n, kth)
 		}
 	}
-	for id, d := range want {
+	for id, d := range detRange(want) {
 		if d < kth && !closeF(d, kth) && !seen[id] {
 			return fmt.Sprintf("id %d at distance %g is among the %d nearest (k-th distance %g) but was not returned", PIDIndex(id), d, n, kth)
 		}
